@@ -59,7 +59,7 @@ pub struct Shader {
 
     /// Additional data specific to the shader type
     #[br(seek_before = SeekFrom::Start(shader_data_offset as u64 + data_offset as u64))]
-    #[br(count = if is_vertex { shader_data_offset } else { 0 } )]
+    #[br(count = if is_vertex { 8 } else { 0 } )]
     #[br(restore_position)]
     pub additional_data: Vec<u8>,
 
